@@ -398,6 +398,9 @@ pub fn std_world<'a>(t: &'a mut Tracer, name: &str, ss_amp: u64, ss_decs: [u8; 2
 }
 
 /// C04/C12/C03: swaps with receivers, dust, large offers, routes sharing denoms and revisiting pools
+fn h2(p: &str, i: &str, o: &str) -> (String, String, String) {
+    (p.to_string(), i.to_string(), o.to_string())
+}
 fn sc_swaps_and_routes(t: &mut Tracer) {
     let mut w = std_world(t, "swaps_and_routes", 100, [6, 6]);
     let (tr, rc) = (w.user(2), w.user(3));
@@ -416,6 +419,19 @@ fn sc_swaps_and_routes(t: &mut Tracer) {
         for tol in [None, Some(Decimal::zero()), Some(Decimal::permille(1)), Some(Decimal::percent(1)), Some(Decimal::percent(10))] {
             w.swap(&tr, "o.cp0", &[coin(amt, "uusd")], "uom", None, tol, None);
         }
+    }
+    // offers too small to buy one unit, accepted because the belief price says so: the offer still belongs to the reserve
+    {
+        let lpu = w.user(1);
+        let ok = w.creation_funds();
+        let o = w.user(0);
+        w.create_pool(&o, &["uusdc", "uweth"], &[6, 6], fees(100, 100, 0, &[]), CP, Some("skew"), &ok);
+        w.provide(&lpu, "o.skew", &sorted(vec![coin(1_000_000, "uusdc"), coin(1_000, "uweth")]), None, None, None, None, None);
+        for amt in [900u128, 900, 999, 1, 1001] {
+            w.swap(&tr, "o.skew", &[coin(amt, "uusdc")], "uweth", Some(Decimal::from_ratio(10_000u128, 1u128)), half, None);
+        }
+        w.swap(&tr, "o.skew", &[coin(900, "uusdc")], "uweth", None, half, None);
+        w.route(&tr, &[h2("o.skew", "uusdc", "uweth")], &[coin(900, "uusdc")], None, None, half);
     }
     // invalid swaps
     w.swap(&tr, "o.cp1", &[coin(10, "uusdc")], "uusdc", None, None, None);
@@ -449,6 +465,10 @@ fn sc_swaps_and_routes(t: &mut Tracer) {
     w.route(&tr, &[h("o.ss3", "uusdt", "uusdt"), h("o.cp1", "uusdt", "uusdc")], &[coin(1000, "uusdt")], None, None, half);
     w.route(&tr, &[h("o.cp1", "uusdc", "uusdt"), h("o.cp1", "uusdt", "uusdt")], &[coin(1000, "uusdc")], None, None, half);
     w.route(&tr, &[h("o.cp1", "uusdc", "uusdt"), h("o.cp2", "uweth", "uusdt")], &[coin(1000, "uusdc")], None, None, half);
+    // a mis-stated input denom at the second, the third (the pool holds the stated and the real denom) and the fourth boundary
+    w.route(&tr, &[h("o.cp1", "uusdc", "uusdt"), h("o.cp2", "uusdt", "uweth"), h("o.ss3", "uusdt", "uusd")], &[coin(1_000_000, "uusdc")], None, None, half);
+    w.route(&tr, &[h("o.cp1", "uusdc", "uusdt"), h("o.cp2", "uusdt", "uweth"), h("o.ss3", "uweth", "uusd"), h("o.ss1", "uusdc", "uusd")], &[coin(1_000_000, "uusdc")], None, None, half);
+    w.route(&tr, &[h("o.cp1", "uusdc", "uusdt"), h("o.cp2", "uusdt", "uweth"), h("o.ss3", "uweth", "uusdt"), h("o.ss3", "uusdt", "uusd"), h("o.ss3", "uusdt", "uweth")], &[coin(1_000_000, "uusdc")], None, None, half);
     w.route(&tr, &[], &[coin(1000, "uusdc")], None, None, half);
     w.route(&tr, &r2, &[coin(1000, "uusdt")], None, None, half);
     w.route(&tr, &r2, &[], None, None, half);
